@@ -172,6 +172,9 @@ def run(ctx):
 
     from props import helpers as _helpers
     ctx.guard(_helpers.integrator_argument_forms, ctx, py, "C13")
+    # correct_pva reaches transform.perturb_lla: its closed form for all longitudes (C16's contract) re-established here
+    from props import C16 as _C16
+    ctx.guard(_C16.perturb_contract, ctx, py, "C13")
     # frame of the modules under contract (no state kept between calls, arguments left alone): same analysis as C19
     from props import C19 as _C19
     ctx.guard(_C19.frame_obligations, ctx, py, "C13", {'_numba_integrate', 'util', 'error_model', 'strapdown', 'transform', 'filters', 'measurements'})
